@@ -266,6 +266,24 @@ def data_section_bits(b: bytes):
     return pos + 4, l4 - 4
 
 
+def section3_descriptor_bytes(b: bytes):
+    """The octets of the unexpanded descriptor list as they stand in section 3 (without an even-octet pad byte)."""
+    edition = b[7]
+    pos = 8
+    l1 = int.from_bytes(b[pos:pos + 3], 'big')
+    sec2 = (b[pos + (9 if edition >= 4 else 7)] & 0x80) != 0
+    pos += l1
+    if sec2:
+        pos += int.from_bytes(b[pos:pos + 3], 'big')
+    l3 = int.from_bytes(b[pos:pos + 3], 'big')
+    return b[pos + 7: pos + l3]
+
+
+def pack_descriptors(ids):
+    import struct
+    return b''.join(struct.pack('>H', ((i // 100000) << 14) | ((i // 1000 % 100) << 8) | (i % 1000)) for i in ids)
+
+
 def decode_impl(b: bytes, **kw):
     """Decode with the implementation; returns (values, labels, links) per subset."""
     from pybufrkit.decoder import Decoder
